@@ -191,6 +191,8 @@ fn sieve_a(s: &SieveSIQS, a_int: &Uint, factors: &Factors) {
     // Storage for recycled resources.
     let mut recycled = None;
     for idx in 0..polys_per_a {
+        #[cfg(yamaquasi_verif)]
+        crate::verif_hooks::jitter();
         if s.done.load(Ordering::Relaxed) {
             // Interrupt early.
             return;
@@ -201,6 +203,8 @@ fn sieve_a(s: &SieveSIQS, a_int: &Uint, factors: &Factors) {
         assert!(pol.idx == idx);
         recycled = Some(siqs_sieve_poly(s, a, &pol, recycled));
         // Check status.
+        #[cfg(yamaquasi_verif)]
+        crate::verif_hooks::jitter();
         let rlen = {
             let rels = s.rels.read().unwrap();
             rels.len()
@@ -1430,6 +1434,8 @@ fn sieve_block_poly(s: &SieveSIQS, pol: &Poly, a: &A, st: &mut sieve::Sieve) {
             cyclelen: 1,
         };
         debug_assert!(rel.verify(&n));
+        #[cfg(yamaquasi_verif)]
+        crate::verif_hooks::jitter();
         s.rels.write().unwrap().add(rel, pq);
     }
 }
